@@ -238,6 +238,36 @@ def _mk_spec(rng, kind, order, nrb, nel, nrf, mstyle, ic, hstep=None, explicit_r
     return spec
 
 
+LAYOUTS = ("rb,el,rf", "el,rb,rf", "rf,rb,el", "rf,el,rb")  # orders that keep the non-rf rows contiguous
+
+
+def _relayout(spec, layout):
+    """the same system with its row blocks in another order (the generators need every partition
+    and the non-rf rows contiguous; which block comes first is the caller's business)"""
+    nrb, nel, nrf = spec["nrb"], spec["nel"], spec["nrf"]
+    old = {"rb": list(range(nrb)), "el": list(range(nrb, nrb + nel)), "rf": list(range(nrb + nel, nrb + nel + nrf))}
+    perm = []
+    part = {}
+    for name in layout.split(","):
+        part[name] = list(range(len(perm), len(perm) + len(old[name])))
+        perm += old[name]
+    ix = np.ix_(perm, perm)
+    out = dict(spec)
+    for key in ("m", "b", "k"):
+        if spec[key] is None:
+            continue
+        a_ = np.array(spec[key], dtype=float)
+        out[key] = (a_[perm] if a_.ndim == 1 else a_[ix]).tolist()
+    out["rf"] = part["rf"]
+    out["rb"] = part["rb"] if spec["rb"] is not None else None
+    out["part"] = part
+    out["layout"] = layout
+    ic = spec["ic"]
+    out["ic"] = {"d0": None if ic["d0"] is None else [ic["d0"][q] for q in perm],
+                 "v0": None if ic["v0"] is None else [ic["v0"][q] for q in perm], "static": ic["static"]}
+    return out
+
+
 def _ic(rng, style, n):
     if style == "zero":
         return {"d0": None, "v0": None, "static": False}
@@ -278,6 +308,13 @@ def _configs(ctx, count):
         out.append(_mk_spec(rng, kind, order, nrb, nel, nrf, ms, _ic(rng, ic, n)))
         if bi % 2 == 0:
             out[-1]["usage"] = {"f2x_first": True, "f0_dtype": ("int64", "float32", "float64")[(bi // 2) % 3]}
+    # the row blocks in every order that keeps the non-rf rows contiguous, on every solver
+    for ki, kind in enumerate(KINDS):
+        for li, layout in enumerate(LAYOUTS[1:]):
+            sp = _mk_spec(rng, kind, (ki + li) % 2, 1 + (li % 2), 2, 1 + ((ki + li) % 2), ("vec", "full", "none")[(ki + li) % 3],
+                          _ic(rng, ("static", "v0static", "d0v0")[li], 1 + (li % 2) + 2 + 1 + ((ki + li) % 2)),
+                          explicit_rb=(li == 1))
+            out.append(_relayout(sp, layout))
     while len(out) < count:
         kind = rng.choice(KINDS)
         order = rng.choice([0, 1, 1])
@@ -291,6 +328,8 @@ def _configs(ctx, count):
         if rng.random() < 0.45:
             out[-1]["usage"] = {"f2x_first": rng.random() < 0.6,
                                 "f0_dtype": rng.choice(["float64", "int64", "float32"])}
+        if rng.random() < 0.3:
+            out[-1] = _relayout(out[-1], rng.choice(LAYOUTS[1:]))
     return out
 
 
@@ -551,11 +590,19 @@ def _mats(spec):
 
 
 def _part(spec):
+    if spec.get("part"):
+        pt = spec["part"]
+        return np.array(pt["rb"], dtype=int), np.array(pt["el"], dtype=int), np.array(pt["rf"], dtype=int)
     nrb, nel, nrf = spec["nrb"], spec["nel"], spec["nrf"]
     rb = np.arange(0, nrb)
     el = np.arange(nrb, nrb + nel)
     rf = np.arange(nrb + nel, nrb + nel + nrf)
     return rb, el, rf
+
+
+def _nonrf(spec):
+    rb, el, _ = _part(spec)
+    return np.sort(np.concatenate((rb, el)))
 
 
 def _partition_ok(ts, spec):
@@ -609,7 +656,7 @@ def _solver_block(ts, spec, path, nt):
     """SOLVER block: the integration coefficients as stored on the solver object (they are C01's and
     C07's subject), mass blocks from the configuration"""
     rb, el, rf = _part(spec)
-    nonrf = np.concatenate((rb, el))
+    nonrf = _nonrf(spec)
     order = ts.order
     if path in ("real-unc", "real-cdf"):
         parts = ["unc" if path == "real-unc" else "cdf", str(order), str(nt)]
@@ -642,7 +689,7 @@ def _solver_block(ts, spec, path, nt):
 
 def _eom_block(ts, spec, path):
     rb, el, rf = _part(spec)
-    kd = el if path == "complex" else np.concatenate((rb, el))
+    kd = el if path == "complex" else _nonrf(spec)
     M, B, K = _mats(spec)
     hasm = spec["m"] is not None
     if ts.unc and not ts.cdforces:
@@ -906,7 +953,7 @@ def _ic_stream(ctx, drv, specs):
     reqs = []
     seen_kind = {}
     for spec in specs:
-        key = (spec["kind"], spec["order"] if False else 0, spec["nrb"] > 0, spec["nrf"] > 0, spec["m"] is None)
+        key = (spec["kind"], spec["nrb"] > 0, spec["nrf"] > 0, spec["m"] is None, spec.get("layout", LAYOUTS[0]))
         if seen_kind.get(key, 0) >= ctx.pick(2, 6):
             continue
         seen_kind[key] = seen_kind.get(key, 0) + 1
@@ -944,6 +991,7 @@ def _ic_stream(ctx, drv, specs):
             ctx.case(("ic", json.dumps(spec, sort_keys=True), json.dumps(ic), fname, via),
                      nontrivial=(lab != "d0=0,v0=0,static=0"), branch="stream:ic")
             ctx.count("ic:" + via)
+            ctx.count("ic-layout:" + spec.get("layout", LAYOUTS[0]))
             ctx.count("ic-exact" if exact else "ic-numeric")
         ctx.count("icopt:" + lab)
         ctx.count("ic:f0-" + fname)
@@ -1344,6 +1392,7 @@ def correspondence(ctx):
         ctx.count("kind:" + spec["kind"])
         ctx.count("order:%d" % spec["order"])
         ctx.count("machine:%s-order%d" % (run.path, spec["order"]))
+        ctx.count("layout:" + spec.get("layout", LAYOUTS[0]))
         if spec["nrb"]:
             ctx.count("feat:rb")
         if spec["nrf"]:
@@ -1410,6 +1459,7 @@ def correspondence(ctx):
          "ic:f0-el-zero", "ic:f0-zero", "ic:f0-dyadic"]
         + ["icopt:d0=%d,v0=%d,static=%d" % (a_, b_, c_) for a_ in (0, 1) for b_ in (0, 1) for c_ in (0, 1)]
         + ["machine:%s-order%d" % (p_, o_) for p_ in ("real-unc", "real-cdf", "complex", "se2") for o_ in (0, 1)]
+        + ["layout:" + l_ for l_ in LAYOUTS] + ["ic-layout:" + l_ for l_ in LAYOUTS]
         + ["api:" + s_ for s_ in API_SHAPES]
         + ["api-path:" + p_ for p_ in ("real-unc", "real-cdf", "complex", "se2")]
         + ["api:err:attr", "api:err:index", "api:err:stop", "api:two-generators-one-object"]
@@ -1485,7 +1535,7 @@ def _oracle_record(spec, fin, hw, step):
     ever sent"""
     M, B, K = _mats(spec)
     rb, el, rf = _part(spec)
-    nr = np.concatenate((rb, el))
+    nr = _nonrf(spec)
     nt = fin.d.shape[1]
     for name in ("d", "v", "a", "force"):
         arr = getattr(fin, name)
@@ -1516,7 +1566,7 @@ def _oracle_ic(spec, ic, f0):
     through tsolve(); None or (stage, observed, required)"""
     M, B, K = _mats(spec)
     rb, el, rf = _part(spec)
-    nr = np.concatenate((rb, el))
+    nr = _nonrf(spec)
     f0 = np.array(f0, dtype=float)
     cols = {}
     for via in ("gen", "batch"):
